@@ -463,6 +463,9 @@ def rule_returns(chk):
     # "singular" is a statement about the matrix: whatever the failure tests compare the pivot with is a constant or is computed from the n x n block alone - a scale taken over the
     # whole augmented array lets a large right-hand side declare a perfectly regular matrix singular
     M.set_parents(fn)
+    from verif_static.norm import local_defs as local_defs_, inline as inline_
+    ldefs_ = local_defs_([fn])
+    nparam = (M.arg_names(fn) + ['n', 'n'])[1]
     for r in rets:
         v = U(r.value) if r.value is not None else 'None'
         guard = M.enclosing(r, (ast.If,))
@@ -482,15 +485,23 @@ def rule_returns(chk):
                     reads += [x for x in ast.walk(gi.test) if isinstance(x, ast.Subscript) and U(x.value) == 'm']
                 for x in reads:
                     lo_ = loops_over(x, fn)
+                    lo_nodes = {}
+                    cur_ = x
+                    while cur_ is not None and cur_ is not fn:
+                        cur_ = getattr(cur_, 'parent', None)
+                        if isinstance(cur_, ast.For) and isinstance(cur_.target, ast.Name) and isinstance(cur_.iter, ast.Call) and U(cur_.iter.func) in ('range', 'prange'):
+                            lo_nodes[cur_.target.id] = cur_.iter
                     idx = x.slice
                     okx = False
                     if isinstance(idx, ast.BinOp) and isinstance(idx.op, ast.Add):
                         # nt*row + col with col running over the columns of the matrix proper
+                        # ... i.e. a loop variable whose range stops at n (directly or through a local that is n: colrange, eqns - whatever they are called)
                         for colv in (idx.left, idx.right):
-                            if isinstance(colv, ast.Name) and lo_.get(colv.id) in ('range(n)', 'range(0,n)', 'range(colrange)', 'range(0,colrange)', 'range(eqns)', 'range(col+1,colrange)', 'range(rrcol+1,colrange)'):
-                                okx = True
-                            if isinstance(colv, ast.Name) and colv.id in ('col', 'rrcol'):
-                                okx = True
+                            if isinstance(colv, ast.Name) and colv.id in lo_nodes:
+                                ra_ = lo_nodes[colv.id].args
+                                stop_ = ra_[0] if len(ra_) == 1 else ra_[1] if len(ra_) in (2, 3) else None
+                                if stop_ is not None and same(inline_(stop_, ldefs_), nparam):
+                                    okx = True
                     if not okx:
                         bad_scale.append('%s (from %s, index over %s)' % (nm, U(x), sorted(lo_.values())))
         chk.decide(not bad_scale, 'gj-return-discipline', 'singularity-is-judged-on-the-matrix-alone@%d' % r.lineno, node=guard, file=LA, func='gj_solve',
